@@ -443,6 +443,11 @@ func (s *blsThresholdSignatureInspector) reconstructThresholdSignature() (Signat
 	shares := make([]byte, 0, len(s.shares)*SignatureLenBLSBLS12381)
 	signers := make([]index, 0, len(s.shares))
 	for index, share := range s.shares {
+		// `TrustedAdd` does not check the shares: a share with an invalid length
+		// can't be a valid signature (and would misalign the flattened shares)
+		if len(share) != SignatureLenBLSBLS12381 {
+			return nil, errInvalidSignature
+		}
 		shares = append(shares, share...)
 		signers = append(signers, index+1)
 	}
@@ -528,6 +533,11 @@ func BLSReconstructThresholdSignature(size int, threshold int,
 	flatShares := make([]byte, 0, SignatureLenBLSBLS12381*(threshold+1))
 	indexSigners := make([]index, 0, threshold+1)
 	for i, share := range shares {
+		// only the first (threshold+1) shares are used by the reconstruction. A share with
+		// an invalid length can't be a valid signature (and would misalign the flattened shares)
+		if i <= threshold && len(share) != SignatureLenBLSBLS12381 {
+			return nil, fmt.Errorf("share at index %d has an invalid length: %w", i, errInvalidSignature)
+		}
 		flatShares = append(flatShares, share...)
 		// check the index is valid
 		if signers[i] >= size || signers[i] < 0 {
